@@ -11,6 +11,7 @@ import (
 
 // client is one raw AMQP connection of the harness.
 type client struct {
+	poisoned bool // hostile bytes were written: frame accounting is off
 	id           int // = the broker's connection id (connections are opened one at a time on a fresh broker)
 	nc           net.Conn
 	mu           sync.Mutex
